@@ -4,6 +4,7 @@ import (
 	"fmt"
 	"net/http/httptest"
 	"strings"
+	"time"
 
 	"pgregory.net/rapid"
 
@@ -107,26 +108,68 @@ func predRouter(c routerCase, o *evid.Obs) error {
 		o.Discard("authentication-not-configurable")
 		return nil
 	}
-	app, err := Assemble(s)
+	app, twin, err := AssemblePair(s)
 	if err != nil {
 		return fmt.Errorf("assembly: %w", err)
 	}
-	return runRequests(app, c.Reqs, c.Wire, o)
+	defer app.Close()
+	defer twin.Close()
+	return runRequests(app, twin, c.Reqs, c.Wire, o)
 }
 
-// runRequests sends the requests one by one and judges each.
-func runRequests(app *App, reqs []Req, wire bool, o *evid.Obs) error {
+// exchanged is one request/response with everything observed about it.
+type exchanged struct {
+	got Resp
+	log []string
+}
+
+// runRequests sends the requests one by one and judges each. twin (may be nil) is the same
+// assembly without credentials configured: requests carrying the right credentials are
+// sent to both and must be indistinguishable.
+func runRequests(app, twin *App, reqs []Req, wire bool, o *evid.Obs) error {
 	s := app.Settings
-	base := ""
+	base, twinBase := "", ""
 	if wire {
 		srv := httptest.NewServer(app.Router)
 		defer srv.Close()
 		base = srv.URL
+		if twin != nil {
+			tsrv := httptest.NewServer(twin.Router)
+			defer tsrv.Close()
+			twinBase = tsrv.URL
+		}
 		o.Tag("transport:wire")
 	} else {
 		o.Tag("transport:direct")
 	}
 	o.Tag("assembly:"+app.Source, "mode:"+s.Mode, fmt.Sprintf("cors:%v", s.Cors))
+	if s.Cors {
+		o.Tag("cors-origin:" + s.Origin)
+	}
+	send := func(a *App, b string, q Req, patience time.Duration) (exchanged, error) {
+		backend.Reset()
+		reached.Reset()
+		var got Resp
+		var err error
+		if wire {
+			got, err = serveWire(b, q, patience)
+		} else {
+			got, err = serveDirect(a.Router, q, patience)
+		}
+		if err != nil {
+			return exchanged{}, err
+		}
+		log := backend.Sync()
+		got.Reached, got.ReachKnown = reached.Get(), true
+		if got.Hang {
+			// the abandoned handler may do anything whenever it likes
+			a.Noisy = true
+		}
+		if a.Noisy {
+			log, got.ReachKnown, got.Reached = nil, false, nil
+		}
+		return exchanged{got, log}, nil
+	}
 	for i, q := range reqs {
 		if _, err := q.build("http://qryn.test"); err != nil {
 			o.Tag("unbuildable-request")
@@ -134,38 +177,51 @@ func runRequests(app *App, reqs []Req, wire bool, o *evid.Obs) error {
 		}
 		registered, tpl := Registered(app.Router, q)
 		v := Classify(s.Login, s.Password, q.HasAuth, string(q.Auth))
+		if wire && q.HasAuth {
+			v = Classify(s.Login, s.Password, true, strings.Trim(string(q.Auth), " \t"))
+		}
 		patience := hangLong
 		if registered && v != MustDeny {
 			patience = hangShort
 		}
-		exchange := func() (Resp, []string, error) {
-			backend.Reset()
-			var got Resp
-			var err error
-			if wire {
-				got, err = serveWire(base, q, patience)
-			} else {
-				got, err = serveDirect(app.Router, q, patience)
+		// one full observation: the request, for a route-less request the same request to
+		// the sentinel path, for the right credentials the same request to the twin
+		observe := func() (x exchanged, sentinel *Resp, tw *exchanged, err error) {
+			if x, err = send(app, base, q, patience); err != nil {
+				return
 			}
-			if err != nil {
-				return got, nil, err
+			if !registered && !x.got.Hang && x.got.Panic == "" && x.got.Status != 405 && x.got.Status != 301 {
+				sq := q
+				sq.Path = sentinelPath
+				if sx, serr := send(app, base, sq, patience); serr == nil {
+					sentinel = &sx.got
+				}
 			}
-			log := backend.Sync()
-			if got.Hang {
-				// the abandoned handler may talk to the database whenever it likes
-				app.Noisy = true
+			if twin != nil && registered && v == MustPass {
+				if tx, terr := send(twin, twinBase, q, patience); terr == nil {
+					tw = &tx
+				}
 			}
-			if app.Noisy {
-				log = nil
-			}
-			return got, log, nil
+			return
 		}
-		got, log, err := exchange()
+		check := func(x exchanged, sentinel *Resp, tw *exchanged) error {
+			if jerr := judgeX(s, q, registered, tpl, x.got, x.log, wire, sentinel); jerr != nil {
+				return jerr
+			}
+			if tw != nil {
+				if derr := diffTwin(q, wire, x.got, tw.got, x.log, tw.log, !app.Noisy && !twin.Noisy); derr != nil {
+					return fmt.Errorf("%w [route %q, cors=%v cors-origin=%q, mode=%q, login=%q password=%q]", derr, tpl, s.Cors, s.Origin, s.Mode, s.Login, s.Password)
+				}
+			}
+			return nil
+		}
+		x, sentinel, tw, err := observe()
 		if err != nil {
 			// transport refused to send it (e.g. a method token net/http rejects): not an exchange
 			o.Tag("transport-error")
 			continue
 		}
+		got, log := x.got, x.log
 		if got.Panic != "" {
 			o.Tag("handler-panic")
 		}
@@ -184,9 +240,18 @@ func runRequests(app *App, reqs []Req, wire bool, o *evid.Obs) error {
 				} else {
 					o.Tag("authorised:no-back-end")
 				}
+				if tw != nil {
+					o.Tag("twin-compared")
+					if q.HasOrigin {
+						o.Tag("twin-compared:with-origin")
+					}
+				}
 			}
 		} else {
 			o.Tag("target:no-route")
+			if sentinel != nil {
+				o.Tag("sentinel-compared")
+			}
 		}
 		if q.Method == "OPTIONS" {
 			o.Tag("preflight")
@@ -194,16 +259,19 @@ func runRequests(app *App, reqs []Req, wire bool, o *evid.Obs) error {
 		if q.AE != "" {
 			o.Tag("ae:" + q.AE)
 		}
+		if q.HasOrigin {
+			o.Tag("origin:" + q.Origin)
+		}
 		if registered && OneEdit(s.Login, s.Password, q.HasAuth, string(q.Auth)) {
 			o.NonTrivial()
 			o.Tag("one-edit")
 		}
-		if jerr := judge(s, q, registered, tpl, got, log, wire); jerr != nil {
+		if jerr := check(x, sentinel, tw); jerr != nil {
 			// A violation of this property is deterministic. Anything that does not happen
 			// again on the spot (a background connection of some goroutine qryn started)
 			// is noise, not evidence.
-			if got2, log2, err2 := exchange(); err2 == nil {
-				if jerr2 := judge(s, q, registered, tpl, got2, log2, wire); jerr2 != nil {
+			if x2, s2, tw2, err2 := observe(); err2 == nil {
+				if jerr2 := check(x2, s2, tw2); jerr2 != nil {
 					return fmt.Errorf("request #%d: %w", i, jerr2)
 				}
 			}
@@ -214,5 +282,5 @@ func runRequests(app *App, reqs []Req, wire bool, o *evid.Obs) error {
 }
 
 func addRouter(r *evid.Run) {
-	evid.Add(r, evid.Prop[routerCase]{Name: "router", Quick: 600, Thorough: 2000, Gen: genRouter, Pred: predRouter})
+	evid.Add(r, evid.Prop[routerCase]{Name: "router", Quick: 400, Thorough: 1200, Gen: genRouter, Pred: predRouter})
 }
